@@ -1,9 +1,12 @@
 package zv
 
 import (
+	"fmt"
 	"go/constant"
 	"go/token"
 	"go/types"
+	"os"
+	"strconv"
 	"strings"
 
 	"golang.org/x/tools/go/ssa"
@@ -15,14 +18,14 @@ func init() {
 	Props["C17"] = Prop{
 		Title: "zapio.Writer logs exactly the lines of the byte stream, however it is chunked",
 		Fn:    checkC17,
-		Explanation: "The core claim (all streams × all partitions) is a statement about runtime values and is NOT decided as a whole. Decided, by exploring every path of Write (its helpers inline, the loop walked for up to three newline-delimited pieces of one chunk, every condition that is not evident forked) and matching the sequence of effects against the line protocol: the level gate is asked afresh on every call and a disabled level returns (len(p), nil) without buffering or logging; each piece is searched for its first newline; without one the whole piece is appended (copied) to the buffer and the loop ends; with one, the part before it is the line - logged directly exactly when nothing is buffered, otherwise appended, the buffer logged and then reset - and the next piece is exactly the part after that newline; (len(p), nil) with p the original parameter is returned on every path; the caller's slice is never stored. Sync logs the pending partial line exactly when the buffer is non-empty (no empty message for a trailing newline) and resets it; Close goes through Sync. Whichever functions the code is split into does not matter. " +
-			"NOT decided: chunks with more than three newlines are covered only in so far as the per-piece step does not depend on the piece number (it cannot: the only state carried over is the buffer); equality of the logged messages with the stream's lines as values.",
+		Explanation: "The core claim (all streams × all partitions) is a statement about runtime values and is NOT decided as a whole. Decided, by bounded concrete path exploration of Write on the program's SSA form (no execution: helpers are walked inline, slices of the chunk are tracked as byte intervals, wherever the code searches a piece for a newline every position of the first newline and 'none' is tried, and whether a partial line is pending is left open): for a 4-byte chunk and every one of the 16 newline placements, with and without a pending partial line, the messages handed to the logger are exactly the completed lines of (pending ++ chunk), in order, empty lines included, the first one including whatever was pending; what remains buffered is exactly the unterminated rest; nothing buffered is dropped unlogged; (len(p), nil) is returned; the level gate is asked afresh on every call and a disabled level returns (len(p), nil) without buffering or logging; the caller's slice is never stored. Sync logs the pending partial line exactly when the buffer is non-empty (no empty message for a trailing newline) and resets it; Close goes through Sync. How the code keeps its position (re-slicing, offsets, bytes.Cut), which functions it is split into and whether a fast path exists does not matter. " +
+			"NOT decided: chunks longer than four bytes are covered only in so far as the per-line step does not depend on absolute positions; sequences of several Write calls are covered through the open 'pending' state of one call (the buffer is the only state carried over); equality of message bytes as values (messages are compared as intervals of the chunk).",
 		Assumptions: commonAssumptions,
 	}
 }
 
 func checkC17(c *Ctx) {
-	c.Rule("R17.1", "Write: by path exploration over up to three newline-delimited pieces of a chunk - every piece is handled by the line protocol, the next piece is exactly the rest after the newline, and (len(original), nil) is returned", 2)
+	c.Rule("R17.1", "Write: bounded concrete exploration (4-byte chunk, all newline placements, pending or not): logged messages = completed lines of pending++chunk, buffer = unterminated rest, returns (len, nil)", 2)
 	c.Rule("R17.2", "nothing is buffered or logged while the level is disabled (the gate is asked afresh on every Write)", 1)
 	c.Rule("R17.3", "empty-line policy: a line completed by a newline is always logged (even if empty); Sync/Close log the pending partial line only when it is non-empty, and reset the buffer", 2)
 	c.Rule("R17.4", "fast path only when nothing is buffered; otherwise the fragment is appended before the buffered line is logged, and the buffer is reset afterwards", 1)
@@ -45,8 +48,14 @@ func checkC17(c *Ctx) {
 			}
 		}
 	}
-	explore := func(fn *ssa.Function) ([]string, bool, int) {
+	explore := func(fn *ssa.Function, N int64) ([]string, bool, int) {
 		rn := fn.Params[0].Name()
+		wp := writeParam(fn)
+		maxIter := 3
+		if N > 0 {
+			maxIter = int(N) + 1
+		}
+		iv := func(f SliceFact) string { return "[" + itoa(int(f.Lo)) + "," + itoa(int(f.Hi)) + ")" }
 		resolve := func(st *ConcState, v ssa.Value) ssa.Value {
 			for k := 0; k < 16; k++ {
 				switch x := v.(type) {
@@ -74,6 +83,9 @@ func checkC17(c *Ctx) {
 		canon := func(st *ConcState, v ssa.Value, d int) string {
 			if v == nil {
 				return ""
+			}
+			if f, ok := st.SliceOf(v); ok && wp != nil && f.Base == ssa.Value(wp) {
+				return iv(f)
 			}
 			r := resolve(st, v)
 			switch x := r.(type) {
@@ -104,7 +116,64 @@ func checkC17(c *Ctx) {
 		}
 		cut := 0
 		seqs, trunc := ConcPaths(fn, ConcCfg{
-			MaxIter: 3, Cut: &cut, MaxStates: 400000,
+			MaxIter: maxIter, Cut: &cut, MaxStates: 400000,
+			SliceLen: func(p *ssa.Parameter) (int64, bool) { return N, N > 0 && p == wp },
+			Fork: func(in ssa.Instruction, st *ConcState) []ConcAlt {
+				// where the first newline of a piece is: nowhere, or at each of its positions
+				switch x := in.(type) {
+				case *ssa.Call:
+					isIdx := IsCallTo(x, "bytes.IndexByte") || IsCallTo(x, "bytes.IndexRune")
+					isCut := IsCallTo(x, "bytes.Cut") || IsCallTo(x, "bytes.Index")
+					if !isIdx && !isCut {
+						return nil
+					}
+					a := Args(x)
+					f, ok := st.SliceOf(a[0])
+					if !ok {
+						return nil
+					}
+					if isIdx {
+						if k, known := st.Int(a[1]); !known || k != 10 {
+							return nil
+						}
+					} else if sep, ok := c.constByteSlice(a[1]); !ok || string(sep) != "\n" {
+						return nil
+					}
+					alts := []ConcAlt{{Ev: "search" + iv(f) + "=none", Ints: map[ssa.Value]int64{x: -1}}}
+					for k := int64(0); k < f.Hi-f.Lo; k++ {
+						alts = append(alts, ConcAlt{Ev: "search" + iv(f) + "=" + itoa(int(f.Lo+k)), Ints: map[ssa.Value]int64{x: k}})
+					}
+					return alts
+				case *ssa.Extract:
+					cl, ok := x.Tuple.(*ssa.Call)
+					if !ok || !IsCallTo(cl, "bytes.Cut") {
+						return nil
+					}
+					k, known := st.Int(cl)
+					f, ok := st.SliceOf(Args(cl)[0])
+					if !known || !ok {
+						return nil
+					}
+					switch x.Index {
+					case 0:
+						if k < 0 {
+							return []ConcAlt{{Slices: map[ssa.Value]SliceFact{x: f}}}
+						}
+						return []ConcAlt{{Slices: map[ssa.Value]SliceFact{x: {Base: f.Base, Lo: f.Lo, Hi: f.Lo + k}}}}
+					case 1:
+						if k < 0 {
+							return []ConcAlt{{Nils: map[ssa.Value]bool{x: true}, Slices: map[ssa.Value]SliceFact{x: {Base: f.Base, Lo: f.Hi, Hi: f.Hi}}}}
+						}
+						return []ConcAlt{{Slices: map[ssa.Value]SliceFact{x: {Base: f.Base, Lo: f.Lo + k + 1, Hi: f.Hi}}}}
+					case 2:
+						if k < 0 {
+							return []ConcAlt{{Ints: map[ssa.Value]int64{x: 0}}}
+						}
+						return []ConcAlt{{Ints: map[ssa.Value]int64{x: 1}}}
+					}
+				}
+				return nil
+			},
 			Event: func(in ssa.Instruction, st *ConcState) string {
 				switch x := in.(type) {
 				case *ssa.Call:
@@ -151,6 +220,8 @@ func checkC17(c *Ctx) {
 					for _, r := range x.Results {
 						if n, known := st.IsNil(r); known && n {
 							parts = append(parts, "nil")
+						} else if k, known := st.Int(r); known && N > 0 {
+							parts = append(parts, itoa(int(k)))
 						} else {
 							parts = append(parts, canon(st, r, 0))
 						}
@@ -243,144 +314,249 @@ func checkC17(c *Ctx) {
 	}
 
 	// ---------------- Write ----------------
+	// Bounded concrete exploration: the chunk has N bytes; wherever the code searches a piece for a newline, every
+	// position of the first newline (and "none") is tried; whether a partial line is pending is open. Each path is the
+	// run of Write on one concrete newline placement; what it logs and leaves buffered is compared with the lines of
+	// (pending ++ chunk).
+	const N = 4
 	p := writeParam(wr)
-	seqs, trunc, cut := explore(wr)
+	seqs, trunc, cut := explore(wr, N)
 	if trunc || len(seqs) == 0 || p == nil {
 		c.Und("R17.1", wr.String(), "paths", wr.Pos(), "path exploration of Write incomplete (%d sequences, truncated=%v)", len(seqs), trunc)
 		return
 	}
-	P := p.Name()
-	wantRet := "ret(len(" + P + "),nil)"
-	var badGate, badLine, badRet, badKeep []string
-	nLines := 0
+	if os.Getenv("ZV_DEBUG") != "" {
+		for _, sq := range seqs {
+			fmt.Println("SEQ17", sq)
+		}
+	}
+	type span struct{ lo, hi int }
+	parseSpan := func(t string) (span, bool) {
+		// "[lo,hi)"
+		if !strings.HasPrefix(t, "[") || !strings.HasSuffix(t, ")") {
+			return span{}, false
+		}
+		f := strings.Split(t[1:len(t)-1], ",")
+		if len(f) != 2 {
+			return span{}, false
+		}
+		lo, e1 := strconv.Atoi(f[0])
+		hi, e2 := strconv.Atoi(f[1])
+		return span{lo, hi}, e1 == nil && e2 == nil
+	}
+	// merged: the byte positions a list of spans covers in order, as one span when contiguous
+	merged := func(l []span) (span, bool) {
+		var out span
+		first := true
+		for _, s := range l {
+			if s.lo == s.hi {
+				continue
+			}
+			if first {
+				out, first = s, false
+				continue
+			}
+			if s.lo != out.hi {
+				return span{}, false
+			}
+			out.hi = s.hi
+		}
+		if first {
+			return span{0, 0}, true
+		}
+		return out, true
+	}
+	var badGate, badLine, badRet, badKeep, badFast []string
+	feasible := 0
+	placements := map[string]bool{}
 	for _, sq := range seqs {
 		toks := strings.Split(sq, " ; ")
-		i := 0
-		next := func() string {
-			if i < len(toks) {
-				i++
-				return toks[i-1]
+		if toks[0] == "enabled=F" {
+			if sq != "enabled=F ; ret("+itoa(N)+",nil)" {
+				badGate = append(badGate, sq)
 			}
-			return "<end>"
+			continue
 		}
-		peek := func() string {
-			if i < len(toks) {
-				return toks[i]
+		if toks[0] != "enabled=T" {
+			badGate = append(badGate, sq)
+			continue
+		}
+		hasInit, init := true, 0 // init: 0 unknown, 1 non-empty, -1 empty
+		var added []span
+		type msg struct {
+			body       span
+			ok         bool
+			coversInit bool
+		}
+		var msgs []msg
+		var nls []int
+		pos := 0
+		loggedBuf := false
+		infeasible := false
+		why := ""
+		fail := func(w string) {
+			if why == "" {
+				why = w
 			}
-			return "<end>"
 		}
+		ret := ""
+		for _, t := range toks[1:] {
+			if infeasible {
+				break
+			}
+			switch {
+			case strings.HasPrefix(t, "search"):
+				eq := strings.LastIndex(t, "=")
+				sp, ok := parseSpan(t[len("search"):eq])
+				if !ok || sp.lo != pos || sp.hi != N {
+					fail("the piece searched for a newline is " + t[len("search"):eq] + ", expected the unread rest [" + itoa(pos) + "," + itoa(N) + ")")
+					break
+				}
+				if t[eq+1:] == "none" {
+					pos = N + 1 // nothing more may be searched
+					nls = append(nls, -1)
+				} else {
+					k, _ := strconv.Atoi(t[eq+1:])
+					nls = append(nls, k)
+					pos = k + 1
+				}
+			case t == "buf-empty=T":
+				if a, _ := merged(added); a.lo != a.hi || (hasInit && init == 1) {
+					infeasible = true
+				} else if hasInit {
+					init = -1
+				}
+			case t == "buf-empty=F":
+				if a, _ := merged(added); a.lo != a.hi {
+					// evidently non-empty
+				} else if hasInit && init != -1 {
+					init = 1
+				} else {
+					infeasible = true
+				}
+			case strings.HasPrefix(t, "buf+="):
+				sp, ok := parseSpan(t[len("buf+="):])
+				if !ok {
+					fail("something other than a part of the chunk is appended to the buffer: " + t)
+					break
+				}
+				added = append(added, sp)
+				loggedBuf = false
+			case t == "log(buf)":
+				b, ok := merged(added)
+				msgs = append(msgs, msg{body: b, ok: ok, coversInit: true})
+				loggedBuf = true
+			case strings.HasPrefix(t, "log("):
+				sp, ok := parseSpan(strings.TrimSuffix(t[len("log("):], ")"))
+				if !ok {
+					fail("a message that is neither the buffer nor a part of the chunk is logged: " + t)
+					break
+				}
+				pending, _ := merged(added)
+				cov := (!hasInit || init == -1) && pending.lo == pending.hi
+				if sp.lo == sp.hi {
+					sp = span{0, 0}
+				}
+				msgs = append(msgs, msg{body: sp, ok: true, coversInit: cov})
+			case t == "buf-reset":
+				if a, _ := merged(added); (a.lo != a.hi || (hasInit && init != -1)) && !loggedBuf {
+					fail("the buffer is reset while it holds bytes that were not logged")
+				}
+				hasInit, added = false, nil
+			case strings.HasPrefix(t, "buf=") || strings.HasPrefix(t, "buf?"):
+				fail("the buffer is changed in a way the model does not know: " + t)
+			case strings.HasPrefix(t, "log-at("):
+				fail("a line is logged at a level other than the writer's: " + t)
+			case strings.HasPrefix(t, "cond?") || strings.HasPrefix(t, "gate?"):
+				fail("a condition the model does not know: " + t)
+			case strings.HasPrefix(t, "ret("):
+				ret = t
+			}
+		}
+		if infeasible {
+			continue
+		}
+		feasible++
+		var pl []string
+		for _, k := range nls {
+			pl = append(pl, itoa(k))
+		}
+		placements[strings.Join(pl, ",")] = true
 		for _, t := range toks {
 			if strings.HasPrefix(t, "buf=") {
 				badKeep = append(badKeep, sq)
 			}
 		}
-		t := next()
-		if t == "enabled=F" {
-			if next() != wantRet || peek() != "<end>" {
-				badGate = append(badGate, sq)
-			}
-			continue
+		if ret != "ret("+itoa(N)+",nil)" {
+			badRet = append(badRet, sq)
 		}
-		if t != "enabled=T" {
-			badGate = append(badGate, sq)
-			continue
-		}
-		C := P
-		ok := true
-		why := ""
-		for ok {
-			t = next()
-			if t == "more("+C+")=F" || (C == "nil" && strings.HasPrefix(t, "ret(")) {
-				if strings.HasPrefix(t, "ret(") {
-					i--
+		// reference: the lines of (pending ++ chunk) for this newline placement
+		if why == "" {
+			start, k := 0, 0
+			sawNone := false
+			for _, q := range nls {
+				if q < 0 {
+					sawNone = true
+					break
 				}
-				break
+				if k >= len(msgs) {
+					fail("the line ending at byte " + itoa(q) + " is not logged")
+					break
+				}
+				m := msgs[k]
+				want := span{start, q}
+				if want.lo == want.hi {
+					want = span{0, 0}
+				}
+				switch {
+				case !m.ok || m.body != want:
+					fail("line " + itoa(k+1) + " should be bytes [" + itoa(start) + "," + itoa(q) + ") of the chunk (after anything pending), but what is logged covers [" + itoa(m.body.lo) + "," + itoa(m.body.hi) + ")")
+				case k == 0 && !m.coversInit:
+					badFast = append(badFast, sq)
+					fail("the first line is logged without the partial line that may be pending in the buffer")
+				}
+				start = q + 1
+				k++
 			}
-			if strings.HasPrefix(t, "ret(") && C != P {
-				// the loop condition was evident (nothing left)
-				i--
-				break
+			if why == "" && k != len(msgs) {
+				fail(itoa(len(msgs)) + " messages are logged for " + itoa(k) + " completed line(s)")
 			}
-			if t != "more("+C+")=T" {
-				ok, why = false, "expected the loop test on "+C+", found "+t
-				break
-			}
-			t = next()
-			switch t {
-			case "nl(" + C + ")=F":
-				if n := next(); n != "buf+="+C {
-					ok, why = false, "a piece without newline must be appended whole to the buffer, found "+n
+			if why == "" {
+				if !sawNone && start < N {
+					fail("the chunk is not consumed: bytes from " + itoa(start) + " on are never searched")
 				}
-				C = "nil"
-				// the loop ends: either its condition is evident or a break was taken
-				if strings.HasPrefix(peek(), "more(") {
-					if n := next(); !strings.HasSuffix(n, "=F") {
-						ok, why = false, "the loop continues after the unterminated rest was buffered: "+n
-					}
+				rest, ok := merged(added)
+				want := span{0, 0}
+				if sawNone && start < N {
+					want = span{start, N}
 				}
-				goto done
-			case "nl(" + C + ")=T":
-				nLines++
-				line, rest := C+"[:IndexByte("+C+", 10)]", C+"[(IndexByte("+C+", 10) + 1):]"
-				lineAlt, restAlt := "", ""
-				for _, tk := range toks {
-					// the same split taken from bytes.Cut(C, "\n")
-					if strings.HasPrefix(tk, "log(Cut("+C+", ") && strings.HasSuffix(tk, ")#0)") {
-						lineAlt = strings.TrimSuffix(strings.TrimPrefix(tk, "log("), ")")
-					}
-					if strings.HasPrefix(tk, "buf+=Cut("+C+", ") && strings.HasSuffix(tk, ")#0") {
-						lineAlt = strings.TrimPrefix(tk, "buf+=")
-					}
+				if !ok || rest != want {
+					fail("after the call the buffer should hold the unterminated rest [" + itoa(want.lo) + "," + itoa(want.hi) + ") of the chunk, it holds [" + itoa(rest.lo) + "," + itoa(rest.hi) + ")")
 				}
-				if lineAlt != "" {
-					line, restAlt = lineAlt, strings.TrimSuffix(lineAlt, "#0")+"#1"
-					rest = restAlt
+				if k == 0 && !hasInit {
+					fail("a pending partial line is dropped although no line was completed")
 				}
-				switch n := next(); n {
-				case "buf-empty=T":
-					if n2 := next(); n2 != "log("+line+")" {
-						ok, why = false, "with nothing buffered the line "+line+" is logged directly; found "+n2
-					}
-				case "buf-empty=F":
-					n2 := next()
-					for strings.HasPrefix(peek(), "buf-empty=") {
-						next() // re-testing the buffer after the append changes nothing: a completed line is logged even if empty
-					}
-					n3, n4 := next(), next()
-					if n2 != "buf+="+line || n3 != "log(buf)" || n4 != "buf-reset" {
-						ok, why = false, "with a partial line buffered: append "+line+", log the buffer, reset it; found "+n2+" ; "+n3+" ; "+n4
-					}
-				default:
-					ok, why = false, "after finding a newline the buffer's emptiness decides; found "+n
-				}
-				C = rest
-			default:
-				ok, why = false, "expected the newline search on "+C+", found "+t
 			}
 		}
-	done:
-		if ok {
-			if n := next(); n != wantRet || peek() != "<end>" {
-				badRet = append(badRet, sq)
-			}
-		} else {
+		if why != "" {
 			badLine = append(badLine, why+" ("+sq+")")
 		}
 	}
 	lim := func(l []string) []string {
-		if len(l) > 3 {
-			return append(l[:3:3], "… "+itoa(len(l)-3)+" more")
+		if len(l) > 2 {
+			return append(l[:2:2], "… "+itoa(len(l)-2)+" more")
 		}
 		return l
 	}
-	c.Check(len(badLine) == 0 && nLines > 0, "R17.1", wr.String(), "line-protocol", wr.Pos(), "over %d paths (helpers inline, up to 3 pieces per chunk; %d longer paths cut): each piece is searched for its first newline; without one the whole piece is appended to the buffer and the loop ends; with one, the part before it is the line (logged directly when nothing is buffered, else appended, the buffer logged and reset) and the next piece is exactly the part after it: %v", len(seqs), cut, lim(badLine))
-	c.Check(len(badRet) == 0, "R17.1", wr.String(), "consumes-all", wr.Pos(), "every path returns (len(%s), nil) with %s the original parameter: %v", P, P, lim(badRet))
+	P := p.Name()
+	c.Check(len(badLine) == 0 && len(placements) >= 1<<N, "R17.1", wr.String(), "line-protocol", wr.Pos(), "bounded concrete exploration: a %d-byte chunk, every placement of newlines in it (%d placements, %d feasible paths incl. pending / no pending partial line; %d longer paths cut): what Write logs is exactly the completed lines of (pending ++ chunk), in order, empty ones included, and what it leaves buffered is exactly the unterminated rest: %v", N, len(placements), feasible, cut, lim(badLine))
+	c.Check(len(badRet) == 0, "R17.1", wr.String(), "consumes-all", wr.Pos(), "every path returns (len(%s), nil): %v", P, lim(badRet))
 	c.Check(len(badGate) == 0, "R17.2", wr.String(), "level-gate", wr.Pos(), "Write first asks the logger's core whether the writer's level is enabled (afresh on every call) and, if not, returns (len(%s), nil) without buffering or logging: %v", P, lim(badGate))
-	c.Check(len(badLine) == 0, "R17.4", wr.String(), "fast-path-only-when-empty", wr.Pos(), "same exploration: the direct log is taken only on the buffer-empty branch; otherwise the fragment joins the buffer before the buffered line is logged, and the buffer is reset afterwards")
+	c.Check(len(badFast) == 0 && len(badLine) == 0, "R17.4", wr.String(), "fast-path-only-when-empty", wr.Pos(), "same exploration: a line is logged straight from the chunk only where the buffer is known to be empty; otherwise it joins the buffer, the buffer is logged and then reset: %v", lim(badFast))
 	c.Check(len(badKeep) == 0 && len(badLine) == 0, "R17.5", wr.String(), "no-retained-caller-slice", wr.Pos(), "same exploration: the buffer only ever grows by copying (bytes.Buffer.Write / append(buf, piece...)); the caller's slice is never stored: %v", lim(badKeep))
 
 	// ---------------- Sync / Close ----------------
-	sseqs, strunc, _ := explore(sy)
+	sseqs, strunc, _ := explore(sy, 0)
 	var badSync []string
 	for _, sq := range sseqs {
 		switch sq {
@@ -390,7 +566,7 @@ func checkC17(c *Ctx) {
 		}
 	}
 	c.Check(!strunc && len(sseqs) >= 2 && len(badSync) == 0, "R17.3", sy.String(), "flushes-partial-line-only-if-non-empty", sy.Pos(), "Sync logs the pending partial line exactly when the buffer is non-empty (no empty message for a trailing newline), resets the buffer and returns nil: %v", badSync)
-	cseqs, ctrunc, _ := explore(cl)
+	cseqs, ctrunc, _ := explore(cl, 0)
 	okClose := !ctrunc && len(cseqs) > 0
 	for _, sq := range cseqs {
 		if sq != "sync ; ret(sync)" && sq != "sync ; ret(nil)" && !strings.HasPrefix(sq, "sync ; ret(") {
